@@ -102,6 +102,85 @@ def violates(seqs):
     return None
 
 
+_LEVEL_POOL = None
+
+
+def level_pool():
+    """header-only sequences ([sequence header, end of sequence]) for every (level, base format, coding mode) the REAL
+    level table lists, serialised by the real serialiser, each with its verdict when validated alone"""
+    global _LEVEL_POOL
+    if _LEVEL_POOL is not None:
+        return _LEVEL_POOL
+    import copy
+    from io import BytesIO
+    from props import c15
+    from vc2_conformance.bitstream import Stream, Sequence, DataUnit, ParseInfo, autofill_and_serialise_stream
+    from vc2_conformance.encoder.sequence_header import make_sequence_header
+    from vc2_conformance.level_constraints import LEVEL_CONSTRAINTS
+    from vc2_conformance.constraint_table import AnyValue
+    from vc2_data_tables import ParseCodes
+
+    pool = []
+    for cf in c15.level_formats():
+        try:
+            header = make_sequence_header(cf)
+        except Exception:  # noqa  - the encoder refuses the combination
+            continue
+        versions = set()
+        for col in LEVEL_CONSTRAINTS:
+            if int(cf["level"]) in col["level"] and not isinstance(col["major_version"], AnyValue):
+                versions |= set(col["major_version"].iter_values())
+        if versions:
+            header["parse_parameters"]["major_version"] = min(versions)
+        f = BytesIO()
+        autofill_and_serialise_stream(f, Stream(sequences=[Sequence(data_units=[
+            DataUnit(parse_info=ParseInfo(parse_code=ParseCodes.sequence_header), sequence_header=copy.deepcopy(header)),
+            DataUnit(parse_info=ParseInfo(parse_code=ParseCodes.end_of_sequence))])]))
+        data = f.getvalue()
+        pics = []
+        res = S.validate(data, collect=pics)
+        pool.append({"level": int(cf["level"]), "base": int(header["base_video_format"]), "pcm": int(cf["picture_coding_mode"]),
+                     "bytes": data, "alone": (res, pics)})
+    _LEVEL_POOL = pool
+    return pool
+
+
+def violates_bytes(items):
+    """compositionality on the REAL validator for sequences given as bytes with their verdicts alone"""
+    data = b"".join(it["bytes"] for it in items)
+    pics = []
+    res = S.validate(data, collect=pics)
+    want_res, want_pics = "OK", []
+    for it in items:
+        r, p = it["alone"]
+        want_pics += p
+        if r != "OK":
+            want_res = r
+            break
+    if (res, pics) != (want_res, want_pics):
+        return {"level_sequences": [[it["level"], it["base"], it["pcm"], it["alone"][0]] for it in items], "bytes": data.hex(),
+                "concatenated": [res, pics],
+                "why": "sequences of levels %s: concatenation gives %s %s, the sequences alone give %s %s" % (
+                    [it["level"] for it in items], res, pics, want_res, want_pics)}
+    return None
+
+
+def level_cases(rng, n):
+    pool = level_pool()
+    ok = [it for it in pool if it["alone"][0] == "OK"]
+    out = []
+    # every ordered pair of individually conformant sequences of DIFFERENT level-table rows, then random longer lists
+    for a in ok:
+        for b in ok:
+            if (a["level"], a["base"], a["pcm"]) != (b["level"], b["base"], b["pcm"]):
+                out.append([a, b])
+    rng.shuffle(out)
+    out = out[:n]
+    for _ in range(n // 4):
+        out.append([rng.choice(pool) for _ in range(rng.choice([3, 4]))])
+    return out
+
+
 DIRECTED = [
     # a sequence needing version 3 (fragments) must not relax the version bound of the next one
     [["Chq.0.-", "H0", "F0", "D0.2.0.0", "E"], ["Chq.0.3", "H0", "P0", "E"]],
@@ -123,7 +202,8 @@ class Prop(object):
     rule = ("lists of 1-4 sequences drawn from different configurations (profile, frame/field coding, major version auto/3, pictures/fragments, "
             "padding/aux/repeated headers, picture numbers incl. wrap-around), with a non-conformant sequence (8 kinds) at a random position in a third of them, "
             "rendered to bytes by the REAL serialiser; compared: (a) model verdict+decoded numbers == real validator on the concatenation, "
-            "(b) on the REAL validator alone: concatenation == composition of the sequences validated alone")
+            "(b) on the REAL validator alone: concatenation == composition of the sequences validated alone; (c) the same for header-only sequences of every row of the REAL level table "
+            "(all ordered pairs of different rows, random longer lists incl. individually rejected ones)")
     trusted = ["hand-written model lean/VC2/Model/Stream.lean (shared with C01) tied to the code by the vd correspondence",
                "the real encoder/serialiser used to render individually valid data units"]
     assumptions = ["data units are individually valid; decoded picture CONTENT is covered by C03/C04/C09 (here: picture numbers in callback order)",
@@ -159,6 +239,15 @@ class Prop(object):
         ctx.diff("vd concatenated sequences of differing configurations: model == real validator (verdict class, decoded numbers)",
                  lines, exp)
         ctx.corr_names.append("real validator: concatenation == composition of the sequences alone")
+        # sequences of DIFFERENT REAL LEVELS (header-only sequences for every row of the level table)
+        ctx.corr_names.append("real validator: concatenations of sequences of different real levels == composition of the sequences alone")
+        ctx.count("level-pool", len(level_pool()))
+        ctx.count("level-pool:conformant-alone", len([it for it in level_pool() if it["alone"][0] == "OK"]))
+        for items in level_cases(rng, ctx.n(400, 5000)):
+            v = violates_bytes(items)
+            ctx.evaluations += 1
+            if v and self._bad is None:
+                self._bad = v
         if self._bad:
             ctx.broke("correspondence", "compositionality on the real validator", self._bad["why"])
 
@@ -169,6 +258,10 @@ class Prop(object):
         rng = ctx.rng("search")
         for seqs in DIRECTED:
             v = violates(seqs)
+            if v:
+                return v
+        for items in level_cases(rng, ctx.n(1500, 5000)):
+            v = violates_bytes(items)
             if v:
                 return v
         for _ in range(ctx.n(1500, 20000)):
@@ -190,6 +283,14 @@ class Prop(object):
         if not fi:
             print("replay names broken obligations only:", r.get("broken_obligations"))
             return 1
+        if "level_sequences" in fi:
+            pool = level_pool()
+            items = []
+            for lv, base, pcm, _ in fi["level_sequences"]:
+                items += [it for it in pool if (it["level"], it["base"], it["pcm"]) == (lv, base, pcm)][:1]
+            v = violates_bytes(items)
+            print("replay levels %s -> %s" % ([x[0] for x in fi["level_sequences"]], v["why"] if v else "property holds"))
+            return 1 if v else 0
         v = violates(fi["sequences"])
         print("replay %s -> %s" % (fi["sequences"], v["why"] if v else "property holds"))
         return 1 if v else 0
